@@ -1202,7 +1202,9 @@ lyd_diff_insert(struct lyd_node **first_node, struct lyd_node *parent_node, stru
         ret = lyd_find_sibling_val(*first_node, new_node->schema, NULL, 0, &anchor);
         LY_CHECK_RET(ret && (ret != LY_ENOTFOUND), ret);
 
-        if (anchor) {
+        if (anchor == new_node) {
+            /* moved node already is the first instance */
+        } else if (anchor) {
             /* insert before the first instance */
             LY_CHECK_RET(lyd_insert_before(anchor, new_node));
             if ((*first_node)->prev->next) {
